@@ -151,6 +151,9 @@ def blocked_cases(draw):
         "sel": draw(st.lists(st.integers(0, n - 1), min_size=1, max_size=n, unique=True)),
         "open_exchanges": draw(st.booleans()),
         "processes": draw(st.sampled_from([1, 1, 1, 1, 1, 2])),
+        # what happened to the model object before the call: the solver may hold a solution of an earlier, wider problem
+        "pre": draw(st.sampled_from(["none", "none", "optimize_then_knock", "optimize_then_knock", "open_first", "fva_first"])),
+        "pre_k": draw(st.integers(0, 20)),
     }
 
 
@@ -254,13 +257,39 @@ def check_blocked(case, ctx):
     spec = case["spec"]
     model = build.build_model(spec, case["path"])
     rids_all = [r["id"] for r in spec["rxns"]]
+    pre = case.get("pre", "none")
+    if pre == "optimize_then_knock" and rids_all:
+        import copy as _copy
+
+        try:
+            model.optimize()
+        except Exception:  # noqa: BLE001 - an unbounded objective: the history still happened
+            pass
+        rid = rids_all[case.get("pre_k", 0) % len(rids_all)]
+        model.reactions.get_by_id(rid).knock_out()
+        spec = _copy.deepcopy(spec)
+        for r in spec["rxns"]:
+            if r["id"] == rid:
+                r["lb"], r["ub"] = 0, 0
+    elif pre == "open_first":
+        try:
+            find_blocked_reactions(model, open_exchanges=True)
+        except Exception:  # noqa: BLE001
+            pass
+    elif pre == "fva_first":
+        from cobra.flux_analysis import flux_variability_analysis
+
+        try:
+            flux_variability_analysis(model, fraction_of_optimum=0.5)
+        except Exception:  # noqa: BLE001
+            pass
     mode = case["list_mode"]
     want_ids = rids_all if mode == "none" else [rids_all[i] for i in case["sel"] if i < len(rids_all)]
     if mode in ("ids", "mixed") and SIG_IDS in ctx.known:
         # known finding: id strings crash; steer around it by passing the same reactions as objects
         ctx.excluded_by(SIG_IDS)
         mode = "objs"
-    classes = list(case.get("labels", ())) + [f"blocked:list-{mode}", f"blocked:proc-{case['processes']}",
+    classes = list(case.get("labels", ())) + [f"blocked:pre-{pre}", f"blocked:list-{mode}", f"blocked:proc-{case['processes']}",
                                               f"blocked:open-{case['open_exchanges']}", f"solver-{spec['solver']}"]
     if mode == "none":
         arg = None
